@@ -93,6 +93,26 @@ def _num_sorted(v, func=None):
         and _kw(v, 'reverse') is None and _num_key(_kw(v, 'key'), func)
 
 
+def _sorted_in_place_before(func, name, ret):
+    """`name.sort(key=<token number>)` (no reverse) is the statement right before `return name`, name a list made here."""
+    for blk in ast.walk(func.node):
+        for fld in ('body', 'orelse', 'finalbody'):
+            lst = getattr(blk, fld, None)
+            if isinstance(lst, list) and ret in lst:
+                i = lst.index(ret)
+                if i == 0:
+                    return False
+                st = lst[i - 1]
+                if isinstance(st, ast.Expr) and isinstance(st.value, ast.Call) and isinstance(st.value.func, ast.Attribute) \
+                        and st.value.func.attr == 'sort' and isinstance(st.value.func.value, ast.Name) \
+                        and st.value.func.value.id == name and not st.value.args \
+                        and _kw(st.value, 'reverse') is None and _num_key(_kw(st.value, 'key'), func):
+                    defs = [v for (_, v) in name_defs(func, name) if isinstance(v, ast.AST)]
+                    return bool(defs) and all(isinstance(v, (ast.List, ast.ListComp)) or (
+                        isinstance(v, ast.Call) and isinstance(v.func, ast.Name) and v.func.id == 'list') for v in defs)
+    return False
+
+
 def r_ordered(prog, tier):
     obs = []
     T = prog.modules['trees']
@@ -118,6 +138,12 @@ def r_ordered(prog, tier):
     elif '.sort(' in src:
         ok, why = False, 'children() sorts the stored list in place: callers that hold the list see it change, and ' \
                          'code reading .children relies on an earlier call'
+    # whatever the shape: a return that hands out the stored list itself gives callers an alias that changes under them
+    for r_ in rets:
+        if r_.value is not None and unparse(r_.value) == '%s.children' % f.params[0]:
+            ok = False
+            why = '`%s` hands out the stored list itself: a caller that iterates children(x) while re-attaching nodes ' \
+                  '(boyd_split, raising, the traversals) sees the list change under it' % unparse(r_)
     obs.append(Ob('R-ORDERED/DEF', f.fq, 'children() orders by leftmost token', ok, why,
                   construct='def-children', line=f.node.lineno))
     f = prog.func('trees', 'terminals')
@@ -142,6 +168,10 @@ def r_ordered(prog, tier):
         elif isinstance(v, ast.Call) and isinstance(v.func, ast.Name) and v.func.id == 'sorted':
             k_ = _kw(v, 'key')
             kinds.append('sorted-other' if (k_ is None or isinstance(k_, ast.Lambda) or _kw(v, 'reverse') is not None) else '?')
+        elif isinstance(v, ast.Call) and prog.callee(v, f) == ('trees', 'terminals'):
+            kinds.append('leaf' if False else 'rec')        # what the function itself returns for another node: ordered by induction
+        elif isinstance(v, ast.Name) and _sorted_in_place_before(f, v.id, r):
+            kinds.append('sorted')
         elif isinstance(v, ast.Name):
             kinds.append('unsorted-name')
         elif v is not None and any(isinstance(x, ast.Attribute) and x.attr == 'children' and unparse(x.value) == P
@@ -150,7 +180,7 @@ def r_ordered(prog, tier):
             kinds.append('stored-children')
         else:
             kinds.append('?')
-    if rec and over_children and sorted(set(kinds)) == ['leaf', 'sorted']:
+    if rec and over_children and sorted(set(kinds) - {'rec'}) == ['leaf', 'sorted']:
         ok, why = True, 'leaf returns [tree]; otherwise the terminals of all children, sorted by token number'
     elif 'stored-children' in kinds:
         ok, why = False, 'a return of terminals() hands back the stored child list as it is: tokens come out in storage order'
@@ -396,6 +426,9 @@ def _raw_context(n, par, parents):
                                                      and par.test is n):
         return (True, 'truth value (empty or not) is order-insensitive')
     if isinstance(par, ast.Subscript) and par.value is n:
+        if isinstance(par.ctx, ast.Del) and isinstance(par.slice, ast.Slice) and par.slice.lower is None \
+                and par.slice.upper is None and par.slice.step is None:
+            return (True, 'the whole list is emptied: order-insensitive')
         return (False, 'indexing the stored child list')
     if isinstance(par, ast.Assign) and par.value is n:
         return ('alias', par)
@@ -640,6 +673,17 @@ def r_expnum(prog, tier):
         okr, whyr = True, '`%s.data[\'num\'] = 0` after the numbering loops' % root
     elif not zero and not any("%s.data['num']" % root in unparse(r.ast) for r in stores):
         okr, whyr = False, 'the root is never numbered 0'
+    elif zero:
+        # positive evidence: some way out of the function does not pass the store (an early return for a "trivial" tree)
+        exits = [p_ for p_ in cfg.pred[cfg.exit] if cfg.nodes[p_].kind != 'stmt' or not isinstance(cfg.nodes[p_].ast, ast.Raise)]
+        reach = cfg.reach(cfg.entry, avoid=frozenset(z.id for z in zero))
+        skipping = [p_ for p_ in exits if p_ in reach and p_ not in [z.id for z in zero]]
+        if skipping and not prog.opaque_calls(f, [root]):
+            nd = cfg.nodes[skipping[0]]
+            conds = [unparse(a.ast)[:40] for a in cfg.assumes_at(nd.id)]
+            okr = False
+            whyr = 'line %d leaves the function (under %s) without numbering the root 0: a tree whose root is its only ' \
+                   'constituent keeps a missing or stale root number' % (nd.lineno, conds)
     obs.append(Ob('R-EXPNUM', f.fq, 'the root gets number 0 after the constituents are numbered', okr, whyr,
                   construct='num-root', line=f.node.lineno))
     return obs, {}
